@@ -193,3 +193,8 @@ def extra(cases, outs, model):
     for c in cases:
         smp[c["sampler"]] = smp.get(c["sampler"], 0) + 1
     return {"samplers": smp, "hmc_nonfinite_proposals_rejected": rej_nonfinite}
+
+
+def corrupt(model):
+    """model output is [delta bits, mask] per row: flip every mask"""
+    return [1 - x if i % 2 == 1 else x for i, x in enumerate(model)]
